@@ -155,7 +155,8 @@ def replay(chk, build, fam, routes, workdir, prop=None, reduce_budget=0):
         st["bad"] += 1
         nbad += 1
         kind, sig = c
-        key = {"kind": kind, "sig": sig, "shapes": shape_flags(p), "route": route, "q": q}
+        key = {"kind": kind, "sig": sig, "shapes": shape_flags(p), "route": route,
+               "opts": (["-Q%s" % q] if q is not None else []) + list(xa)}
         detail = {"program_id": p["id"], "route": label, "kind": kind, "sig": sig,
                   "expected_out": e["out"][:4000], "expected_status": e["status"],
                   "got_out": r["out"][:4000], "got_err": r["err"][:2000], "rc": r["rc"], "phase": r["phase"],
